@@ -231,3 +231,44 @@ def add_unreachable(spec, rng, k):
         if rng.random() < 0.5:
             t['F'].append(q)
     return t
+
+
+def anchor_probe_dfa(rng):
+    """A large DFA with many Nerode classes that are separated late: N pairwise distinguishable *anchor* states (a counter
+    on symbol c) and M reachable *probe* states that differ from each other only in WHICH anchors their a- and
+    b-transitions point to; the probes are the leaves of a 4-ary tree of router states rooted at q0.  Any
+    partition-refinement shortcut that confuses class identities (numbering, hashing, ordering) merges two probes."""
+    N = rng.randint(12, 24)
+    M = rng.randint(30, 90)
+    anchors = ['a%d' % i for i in range(N)]
+    probes = ['p%d' % k for k in range(M)]
+    Sigma = ['a', 'b', 'c', 'd']
+    delta = []
+    for i, x in enumerate(anchors):
+        nxt = anchors[i + 1] if i + 1 < N else 'sink'
+        delta += [[x, 'a', 'sink'], [x, 'b', 'sink'], [x, 'c', nxt], [x, 'd', 'sink']]
+    seen = set()
+    for p in probes:
+        while True:
+            ij = (rng.choice(anchors), rng.choice(anchors))
+            if ij not in seen or len(seen) >= N * N:
+                break
+        seen.add(ij)
+        delta += [[p, 'a', ij[0]], [p, 'b', ij[1]], [p, 'c', 'sink'], [p, 'd', 'sink']]
+    # routers: a 4-ary tree whose leaves are the probes
+    level = list(probes)
+    routers = []
+    while len(level) > 1:
+        nxt_level = []
+        for k in range(0, len(level), 4):
+            r = 'r%d' % len(routers)
+            routers.append(r)
+            kids = level[k:k + 4]
+            for j, x in enumerate(Sigma):
+                delta.append([r, x, kids[j] if j < len(kids) else 'sink'])
+            nxt_level.append(r)
+        level = nxt_level
+    for x in Sigma:
+        delta.append(['sink', x, 'sink'])
+    Q = probes + anchors + routers + ['sink']
+    return {'kind': 'dfa', 'Q': Q, 'Sigma': Sigma, 'delta': delta, 'q0': level[0], 'F': [anchors[-1]]}
